@@ -274,6 +274,65 @@ example : (runObj encZip id [.send, .mutate (fun p => { p with status := 7 }), .
     = [encZip ⟨⟨5, 1, 0, 0, 1000⟩, 1, 2, [1, 2]⟩, encZip ⟨⟨5, 1, 0, 0, 1000⟩, 7, 2, [1, 2]⟩] := by
   rw [resend_frames_are_current_state]; rfl
 
+/-! a send is the identity on the public state — for every pack type, up to what the model lets a send change -/
+
+/-- when sends leave the state alone (`after = id`: text, parameter, zip, hit-map, counter packs), the final state
+    of any history is what the mutations alone make of the initial state -/
+theorem sends_do_not_change_state {σ : Type} (enc : σ → Bytes) (ops : List (ObjOp σ)) (s : σ) :
+    (runObj enc id ops s).2 = ops.foldl (fun st op => match op with | .mutate f => f st | .send => st) s := by
+  induction ops generalizing s with
+  | nil => rfl
+  | cons op ops ih =>
+    cases op with
+    | mutate f => exact ih (f s)
+    | send => simpa [runObj] using ih s
+
+/-- sending the same object again with no mutation in between gives byte-identical frames, as often as one likes —
+    whenever a send does not change what is encoded (`enc (after s) = enc s`) and `after` is idempotent -/
+theorem resend_identical {σ : Type} (enc : σ → Bytes) (after : σ → σ) (s : σ) (n : Nat)
+    (h1 : enc (after s) = enc s) (h2 : after (after s) = after s) :
+    (runObj enc after (List.replicate (n + 1) .send) s).1 = List.replicate (n + 1) (enc s) := by
+  have key : ∀ m, (runObj enc after (List.replicate m .send) (after s)).1 = List.replicate m (enc s) := by
+    intro m
+    induction m with
+    | zero => rfl
+    | succ m ih => simp [List.replicate_succ, runObj, h1, h2, ih]
+  simp [List.replicate_succ, runObj, key n]
+
+/-- the eight packs: what a send does to the public state (`after`) satisfies both conditions -/
+theorem resend_identical_tagcount (p : TagCount) (n : Nat) :
+    (runObj encTagCount TagCount.norm (List.replicate (n + 1) .send) p).1 = List.replicate (n + 1) (encTagCount p) :=
+  resend_identical _ _ p n (send_tagcount_frame_condition p).2.2.2.2.2.2 (send_tagcount_frame_condition p).2.2.2.2.2.1
+
+theorem resend_identical_logsink (p : LogSink) (n : Nat) :
+    (runObj encLogSink LogSink.norm (List.replicate (n + 1) .send) p).1 = List.replicate (n + 1) (encLogSink p) :=
+  resend_identical _ _ p n (send_logsink_frame_condition p).2.2.2.2.2.2.2.2 (send_logsink_frame_condition p).2.2.2.2.2.2.2.1
+
+/-- text, parameter, zip, hit-map, counter: a send is the identity -/
+theorem resend_identical_plain {σ : Type} (enc : σ → Bytes) (s : σ) (n : Nat) :
+    (runObj enc id (List.replicate (n + 1) .send) s).1 = List.replicate (n + 1) (enc s) :=
+  resend_identical enc id s n rfl rfl
+
+/-- event: a send takes the attributes under reserved keys out of the object again and changes nothing else;
+    when the application's attributes use no reserved key (the intended use) the send is the identity and a
+    re-send is byte-identical -/
+theorem send_event_frame_condition (e : Event) :
+    e.afterSend.hdr = e.hdr ∧ e.afterSend.uuid = e.uuid ∧ e.afterSend.escalation = e.escalation ∧
+    e.afterSend.level = e.level ∧ e.afterSend.title = e.title ∧ e.afterSend.message = e.message ∧
+    e.afterSend.status = e.status ∧ e.afterSend.otype = e.otype ∧
+    e.afterSend.attr = e.attr.filter (fun p => !reserved p.1) ∧ e.afterSend.afterSend = e.afterSend ∧
+    ((∀ p ∈ e.attr, reserved p.1 = false) → e.afterSend = e) :=
+  ⟨rfl, rfl, rfl, rfl, rfl, rfl, rfl, rfl, rfl, Event.afterSend_idem e, Event.afterSend_id e⟩
+
+theorem resend_identical_event (e : Event) (n : Nat) (h : ∀ p ∈ e.attr, reserved p.1 = false) :
+    (runObj encEvent Event.afterSend (List.replicate (n + 1) .send) e).1 = List.replicate (n + 1) (encEvent e) :=
+  resend_identical _ _ e n (by rw [Event.afterSend_id e h]) (Event.afterSend_idem e)
+
+example : (runObj encEvent Event.afterSend [.send, .send] ⟨⟨1, 2, 0, 0, 3⟩, [], false, 10, [], [], 0, 0, [(ascii "a", ascii "b")]⟩).1
+    = [encEvent ⟨⟨1, 2, 0, 0, 3⟩, [], false, 10, [], [], 0, 0, [(ascii "a", ascii "b")]⟩,
+       encEvent ⟨⟨1, 2, 0, 0, 3⟩, [], false, 10, [], [], 0, 0, [(ascii "a", ascii "b")]⟩] :=
+  resend_identical_event _ 1 (by decide)
+
 /-! ### decodability: the reference decoder inverts the reference encoder, for each of the eight bodies
 
   Tagged values inside map fields are C02's well-formed values: `Value.WFV`, with C02's round trip
